@@ -309,6 +309,13 @@ where
         #[cfg(feature = "log")]
         log::trace!("control: {}", control);
         match control {
+            // An end request after the local End has already been sent (eg. `try_end()` polled
+            // again) is ignored
+            SessionControl::End(_)
+                if matches!(
+                    self.session.local_state(),
+                    SessionState::EndSent | SessionState::Discarding
+                ) => {}
             SessionControl::End(error) => {
                 // Record the stop reason before the link channel is closed, so
                 // links that fail on the closure observe the reason.
